@@ -23,7 +23,9 @@ import (
 	"fmt"
 	"math/rand"
 	"strconv"
+	"time"
 
+	"github.com/icon-project/goloop/chain/base"
 	"github.com/icon-project/goloop/common"
 	"github.com/icon-project/goloop/common/codec"
 	"github.com/icon-project/goloop/common/db"
@@ -33,6 +35,7 @@ import (
 	"github.com/icon-project/goloop/service/transaction"
 
 	"verif/lib/ev"
+	"verif/lib/svc"
 	"verif/lib/vote"
 )
 
@@ -337,23 +340,24 @@ func newContext(dbase db.Database, ws ...module.Wallet) (*dsContext, error) {
 	return &dsContext{bytes: codec.BC.MustMarshalToBytes([][]byte{vss.Bytes()}), vl: vss}, nil
 }
 
-func sizes(tier string) (cases, logSeqs, preVal int) {
+func sizes(tier string) (cases, logSeqs, preVal, transitions int) {
 	if tier == ev.Thorough {
-		return 800, 40, 3000
+		return 800, 40, 3000, 150
 	}
-	return 32, 24, 1500
+	return 32, 24, 1200, 40
 }
 
 func init() {
 	ev.Register(&ev.Prop{
 		ID:      "C06",
 		Level:   "exploration",
-		Cases:   func(t string) int { c, _, _ := sizes(t); return c },
+		Cases:   func(t string) int { c, _, _, _ := sizes(t); return c },
 		Batches: func(t string) int { return 16 },
 		Rule: "each case draws two keys, a height h, round r, two different non-zero network ids N,M, two blocks and a timestamp from the PRNG and builds the full message matrix " +
 			"signer{k1,k2} x height{h,h+1} x round{r,r+1} x {prevote,precommit,proposal} x nid{unspecified,N,M} x block{A,B,nil | A,B,A-other-POL} x timestamp{t,t+1} " +
 			"(+ legacy nil votes with empty block id, + precommits with an NTS part outside the signed fields): 408 real signed messages, each decoded through consensus.DecodeDoubleSignData. " +
-			"(1) IsConflictWith on all 408^2 ordered pairs (identical pairs through two independent decodings); (2) dsmLog.LogAndCheck* on random streams of pool messages; (3) doubleSignReportTx.PreValidate on report transactions (binary round trip, real world context) for neighbour pairs (0-2 dimensions changed) and random pairs. " +
+			"(1) IsConflictWith on all 408^2 ordered pairs (identical pairs through two independent decodings); (2) dsmLog.LogAndCheck* on random streams of pool messages; (3) doubleSignReportTx.PreValidate on report transactions (binary round trip, real world context) for neighbour pairs (0-2 dimensions changed) and random pairs, in four call orders on one transaction object: fresh; after TryGetDoubleSignReportInfo (the order of transition.doExecute for a received block); a second time; on the locally built object; " +
+			"(4) a real service transition (validated=false) over a block holding the report transaction: accepted = OnValidate(nil). " +
 			"Oracle (one direction, as stated): goloop treats a pair as evidence => model says same signer, height, round, kind/type, network ids equal or one unspecified, signed fields differ. " +
 			"Non-trivial = distinct ordered pair (by message bytes, per entry point) that is genuine evidence by the model, or misses it by exactly one condition.",
 		MinNonTrivial: func(t string) int {
@@ -369,6 +373,10 @@ func init() {
 			"isconflict_pairs_two_nonzero_nids_differ_vote", "isconflict_pairs_two_nonzero_nids_differ_proposal",
 			"dsmlog_evidence_genuine", "dsmlog_messages_vote", "dsmlog_messages_proposal",
 			"prevalidate_accepted_genuine", "prevalidate_rejected", "prevalidate_pairs_two_nonzero_nids_differ",
+			"prevalidate_after_lookup_lookup_ok", "prevalidate_after_lookup_accepted_genuine", "prevalidate_after_lookup_rejected_nongenuine",
+			"prevalidate_repeated_accepted_genuine", "prevalidate_repeated_rejected",
+			"prevalidate_local_object_accepted_genuine", "prevalidate_local_object_rejected",
+			"transition_validated_genuine", "transition_rejected_nongenuine",
 		},
 		Assumptions: []string{
 			"ECDSA/SHA3 trusted; messages are signed by harness keys (no forgeries)",
@@ -376,6 +384,7 @@ func init() {
 			"network id 0 / absent / undecodable means 'unspecified' (consensus.matchNID)",
 			"PreValidate runs on a real state.WorldContext over an empty MapDB with a platform stub that enables all revisions and installs consensus.DecodeDoubleSignData as icon/platform.go does",
 			"service.dsrManager.Add and contract.DSRHandler call the same IsConflictWith and are not driven separately",
+			"transition phase: lib/svc environment (basic platform wrapped to enable all revisions and install consensus.DecodeDoubleSignData); 'accepted' means the transition's validation callback reported no error (execution may still fail for lack of a context history)",
 		},
 		TimeoutSec: func(t string) int {
 			if t == ev.Thorough {
@@ -389,7 +398,7 @@ func init() {
 
 func run(c *ev.Ctx) {
 	vote.Quiet()
-	_, nLogSeq, nPre := sizes(c.Tier)
+	_, nLogSeq, nPre, nTr := sizes(c.Tier)
 	c.Cases(func(ci int, r *rand.Rand) {
 		w, err := newWorld(r)
 		if err != nil {
@@ -414,6 +423,7 @@ func run(c *ev.Ctx) {
 		}
 		phaseMatrix(c, w, ci)
 		phaseLog(c, w, r, nLogSeq)
+		phaseTransition(c, w, r, nTr)
 		phasePreValidate(c, w, r, nPre)
 	})
 }
@@ -667,6 +677,134 @@ func phasePreValidate(c *ev.Ctx, w *world, r *rand.Rand, n int) {
 		}
 		if want || failing(a, b) == 1 {
 			c.NonTrivial("P" + string(a.bytes) + "|" + string(b.bytes))
+		}
+
+		// Other call orders on ONE transaction object (validation must not depend on
+		// what was done to the object before):
+		extra := map[string]interface{}{"tx_hex": hex.EncodeToString(tx0.Bytes()), "tx_nid": txNID}
+		// (a) the order of a block received from another proposer: transition.doExecute first
+		// looks the report up (ensureRecordDoubleSignReports -> TryGetDoubleSignReportInfo ->
+		// DoubleSignReport.Decode) and only then validates (validateTxs -> PreValidate(wc,true)).
+		if tx2, err := transaction.NewTransaction(tx0.Bytes()); err == nil {
+			c.Eval(1)
+			if _, _, ok := transaction.TryGetDoubleSignReportInfo(wc, tx2); ok {
+				c.Count("prevalidate_after_lookup_lookup_ok", 1)
+			}
+			if err2 := tx2.PreValidate(wc, true); err2 == nil {
+				if !want {
+					report(c, w, "prevalidate-after-lookup", a, b, reason, extra)
+				} else {
+					c.Count("prevalidate_after_lookup_accepted_genuine", 1)
+				}
+			} else {
+				c.Count("prevalidate_after_lookup_rejected", 1)
+				if !want {
+					c.Count("prevalidate_after_lookup_rejected_nongenuine", 1)
+				}
+			}
+		}
+		// (b) validating the same object a second time (propose, then validate again on import)
+		if err3 := tx.PreValidate(wc, true); err3 == nil {
+			if !want {
+				report(c, w, "prevalidate-repeated", a, b, reason, extra)
+			} else {
+				c.Count("prevalidate_repeated_accepted_genuine", 1)
+			}
+		} else {
+			c.Count("prevalidate_repeated_rejected", 1)
+		}
+		// (c) the locally built object (NewDoubleSignReportTx keeps the decoded data attached)
+		if err4 := tx0.PreValidate(wc, true); err4 == nil {
+			if !want {
+				report(c, w, "prevalidate-local-object", a, b, reason, extra)
+			} else {
+				c.Count("prevalidate_local_object_accepted_genuine", 1)
+			}
+		} else {
+			c.Count("prevalidate_local_object_rejected", 1)
+		}
+	}
+}
+
+// ---- transition level -------------------------------------------------------
+
+// dsPlatform is the basic platform with every revision enabled and the consensus
+// double-sign decoder installed (as icon/platform.go does).
+type dsPlatform struct {
+	base.Platform
+}
+
+func (dsPlatform) ToRevision(int) module.Revision { return module.AllRevision }
+func (dsPlatform) DoubleSignDataDecoder() module.DoubleSignDataDecoder {
+	return consensus.DecodeDoubleSignData
+}
+
+// phaseTransition puts a doubleSignReport transaction into a block and lets a real
+// service transition (validated=false, i.e. a block received from another proposer)
+// validate it: transition.doExecute -> ensureRecordDoubleSignReports -> validateTxs.
+func phaseTransition(c *ev.Ctx, w *world, r *rand.Rand, n int) {
+	env, err := svc.NewEnv()
+	if err != nil {
+		c.Violation("harness.svc-env", err.Error())
+		return
+	}
+	defer env.Close()
+	env.Platform = dsPlatform{env.Platform}
+	parent, err := env.Init()
+	if err != nil {
+		c.Violation("harness.svc-init", err.Error())
+		return
+	}
+	dsc, err := newContext(env.DB, w.wallets[0], w.wallets[1])
+	if err != nil {
+		c.Violation("harness.context", err.Error())
+		return
+	}
+	nid := env.Chain.NID()
+	for q := 0; q < n && !c.Stopped(); q++ {
+		ai := r.Intn(len(w.pool))
+		var bi int
+		switch r.Intn(8) {
+		case 0:
+			bi = r.Intn(len(w.pool))
+		case 1:
+			bi = ai
+		default:
+			bi = neighbour(w, r, ai, r.Intn(3))
+		}
+		a, b := w.pool[ai], w.pool[bi]
+		if a.dsd == nil || b.dsd == nil {
+			continue
+		}
+		want, reason := model(a, b)
+		tx0 := transaction.NewDoubleSignReportTx([]module.DoubleSignData{a.dsd, b.dsd}, dsc, nid, w.ts+int64(q))
+		tx, err := transaction.NewTransaction(tx0.Bytes())
+		if err != nil {
+			c.Count("transition_tx_not_parsed", 1)
+			continue
+		}
+		c.Note("transition a=%d b=%d", ai, bi)
+		c.Eval(1)
+		o := env.Run(parent, []module.Transaction{tx}, w.h+10, w.ts+int64(q), 1, false, 60*time.Second)
+		switch {
+		case o.StartErr != nil || o.TimedOut || o.ValidateCalls == 0:
+			c.Count("transition_no_verdict", 1)
+		case o.ValidateErr == nil:
+			if !want {
+				report(c, w, "transition-validate", a, b, reason, map[string]interface{}{"tx_hex": hex.EncodeToString(tx0.Bytes()), "tx_nid": nid, "execute_err": fmt.Sprint(o.ExecuteErr)})
+			} else {
+				c.Count("transition_validated_genuine", 1)
+			}
+		default:
+			c.Count("transition_rejected", 1)
+			if !want {
+				c.Count("transition_rejected_nongenuine", 1)
+			} else {
+				c.Count("transition_info_genuine_refused", 1)
+			}
+		}
+		if want || failing(a, b) == 1 {
+			c.NonTrivial("T" + string(a.bytes) + "|" + string(b.bytes))
 		}
 	}
 }
